@@ -72,9 +72,20 @@ func implDecodeFOpts(uplink bool, fopts []byte) string {
 			return
 		}
 		res = cmdsText(p.MACPayload.FHDR.FOpts.List())
+		// the commands of the frame decoded before this one are values of their own: decoding another
+		// frame does not change them
+		if prevCmds != nil && cmdsText(prevCmds) != prevCmdsText {
+			aliased = fmt.Sprintf("commands of the previous frame read %s, after decoding %s they read %s", prevCmdsText, hx.H(f), cmdsText(prevCmds))
+		}
+		prevCmds, prevCmdsText = p.MACPayload.FHDR.FOpts.List(), res
 	}()
 	return res
 }
+
+// the command list of the last successfully decoded frame, and how it read then
+var prevCmds []protocol.MACCommand
+var prevCmdsText string
+var aliased string
 
 func runMac(c *ctx) error {
 	r := c.rng
@@ -225,7 +236,12 @@ func runMac(c *ctx) error {
 				Note: "C13: decoding the specified layout does not give the field values back"})
 		}
 	}
-	c.res.Rule = "22 commands; exhaustive over all wire-field values when they total <= 12 bits (quick) / <= 24 bits (thorough), otherwise random fitting values + each field <= 16 bits exhaustive with the others random + boundary values; plus values that only fit the Go field type (correspondence only); every case encoded through FOpts/MarshalBinary and decoded through UnmarshalBinary; a class is (command, generator mode, fits)"
+	if aliased != "" {
+		c.res.Add(hx.Finding{Kind: "propfail", Engine: "mac", Signature: "mac-decoded-commands-shared", Case: "two frames decoded one after the other", Impl: aliased,
+			Note: "C13: the field values of a decoded command changed when another frame was decoded (commands of one identifier share storage)"})
+		aliased = ""
+	}
+	c.res.Rule = "22 commands; exhaustive over all wire-field values when they total <= 12 bits (quick) / <= 16 bits (thorough), otherwise random fitting values + each field <= 16 bits exhaustive with the others random + boundary values; plus values that only fit the Go field type (correspondence only); every case encoded through FOpts/MarshalBinary and decoded through UnmarshalBinary; a class is (command, generator mode, fits)"
 	return nil
 }
 
